@@ -68,7 +68,7 @@ from hypothesis import strategies as st
 
 from oracles import hansen as H
 from oracles.series import Series
-from vlib.result import Collector, repo_call
+from vlib.result import Collector, HarnessError, repo_call
 
 ID = 'C08'
 TECHNIQUE = ('exhaustive enumeration of all (l,N,p,q) table cells evaluated on exact rational power-series arguments against '
@@ -464,6 +464,26 @@ def _compare_level(c, l, N, got, evals, where):
     return ref, worst
 
 
+def _call_compiled(fn, arg):
+    """fn(arg); an OSError raised by numba's on-disk cache I/O (the shared cache directory can be pruned by
+    a concurrently running tool) is infrastructure, not the code under test: recreate the directory and
+    retry, then give up with a harness error - never a violation."""
+    import traceback
+    for attempt in range(3):
+        try:
+            return fn(arg)
+        except OSError as e:
+            tb = ''.join(traceback.format_tb(e.__traceback__))
+            if 'numba/core/caching.py' not in tb:
+                raise
+            last = e
+            try:
+                os.makedirs(os.environ.get('NUMBA_CACHE_DIR', '/tmp/c08-nbcache'), exist_ok=True)
+            except OSError:
+                pass
+    raise HarnessError('numba cache I/O failed three times: %r' % (last,))
+
+
 def _arg(case):
     import numpy as np
     evals = [float(x) for x in case['e']]
@@ -487,13 +507,13 @@ def _eval_compiled(case):
     worst = 0.0
     if path == 'dispatch':
         with repo_call('compiled eccentricity_truncations[%d][%d]' % (N, l)):
-            out = m['ef'].eccentricity_truncations[N][l](arg)
+            out = _call_compiled(m['ef'].eccentricity_truncations[N][l], arg)
             got = _to_plain(out, len(evals))
         _, worst = _compare_level(c, l, N, got, evals, 'dispatch')
     else:
         lmax = l
         with repo_call('compiled eccentricity_functions_lookup[%d][%d]' % (N, lmax)):
-            out = m['mh'].eccentricity_functions_lookup[N][lmax](arg)
+            out = _call_compiled(m['mh'].eccentricity_functions_lookup[N][lmax], arg)
             levels = sorted(int(k) for k in out)
             per = {int(k): _to_plain(out[k], len(evals)) for k in out}
         c.check(levels == list(range(2, lmax + 1)), {'clause': 'lookup_levels', 'where': 'lookup'},
@@ -504,7 +524,7 @@ def _eval_compiled(case):
             ref, w = _compare_level(c, ll, N, per[ll], evals, 'lookup')
             worst = max(worst, w)
             with repo_call('compiled eccentricity_truncations[%d][%d]' % (N, ll)):
-                direct = _to_plain(m['ef'].eccentricity_truncations[N][ll](arg), len(evals))
+                direct = _to_plain(_call_compiled(m['ef'].eccentricity_truncations[N][ll], arg), len(evals))
             bad = []
             if set(direct) != set(per[ll]):
                 bad.append('key sets differ')
